@@ -24,7 +24,11 @@ RULE = ("exhaustive: every single attribute (8 fg, 8 bg, 6 styles True/False) in
         "measured, hashed and compared first - and the result is also judged by what str(result) displays (independent "
         "SGR reader) and by ==/hash/.s/len against a FmtStr freshly built from its runs. "
         "non-trivial = distinct cases that name at least one attribute, raise, or remove/replace something")
-ASSUMPTIONS = ["texts contain no ESC (a str argument of fmtstr would be parsed for escape sequences; C05/C17)",
+ASSUMPTIONS = ["'malformed' in the oracle means malformed under every reasonable reading: unknown names/keys, two different values "
+               "for one attribute, wrong types, numbers out of range. Spellings the code merely rejects today (keyword colour "
+               "names in another case, 'on_x' as a bg= value, whitespace variants, a repeated mention with the same value, "
+               "None as 'not given', case variants of keyword names) are compared with the model at representation level only",
+               "texts contain no ESC (a str argument of fmtstr would be parsed for escape sequences; C05/C17)",
                "keyword names are distinct (a repeated keyword is a TypeError at the call site, before parse_args runs)",
                "copy_with_new_str is specified by the statement only for uniformly formatted strings (at least one "
                "character, every character the same dict; empty runs do not count); on other strings only model = code is checked",
@@ -166,34 +170,47 @@ def singles():
     return out
 
 
-MALFORMED_POS = [[S(x)] for x in ("rad", "on_", "on_rad", "onred", "on red", " red", "red ", "", "fg", "bg", "style",
-                                   "bright_red", "31", "bold ", "on_bold", "on_on_red", "red,blue", "True", "on_31")] + \
+# UNAMBIGUOUSLY malformed (under any reasonable reading of "unknown, contradictory or mis-typed specifications"): the
+# oracle demands ValueError.  Inputs the current code merely happens to reject - other spellings of a known name, a
+# repeated mention with the SAME value, None as "not given" - are in REJECTED_SPELLINGS below and only tied to the model
+# at representation level (a maintainer could start accepting them without breaking the property).
+MALFORMED_POS = [[S(x)] for x in ("rad", "reddish", "on_", "on_rad", "", "fg", "bg", "style", "bright_red", "on_bold",
+                                   "on_on_red", "red,blue", "True", "on_31", "nope")] + \
                 [[V(5)], [V(None)], [V(True)], [V(31)], [V(1.0)], [O("bytes")], [O("strlist")], [O("tuple")]]
-MALFORMED_KW = [[["fg", v]] for v in (S("rad"), S("RED"), S("on_red"), S("31"), S(""), V(29), V(38), V(40), V(0), V(-31), V(131),
-                                      V(True), V(False), V(31.0), V(None), O("list"), O("tuple"), O("bytes"), O("dict"),
+MALFORMED_KW = [[["fg", v]] for v in (S("rad"), S("reddish"), S(""), V(29), V(38), V(40), V(0), V(-31), V(131), V(99),
+                                      V(True), V(False), V(31.0), V(3.5), O("list"), O("tuple"), O("bytes"), O("dict"),
                                       O("object"), O("complex"), O("nested"))] + \
-               [[["bg", v]] for v in (S("rad"), S("on_red"), S("RED"), V(31), V(48), V(39), V(4), V(True), V(41.0), V(None),
+               [[["bg", v]] for v in (S("rad"), V(31), V(48), V(39), V(4), V(True), V(41.0),
                                       O("dict"), O("list"), O("object"))] + \
-               [[[s, v]] for s, v in (("bold", V(1)), ("bold", V(0)), ("bold", V(None)), ("bold", S("True")), ("bold", S("bold")),
+               [[[s, v]] for s, v in (("bold", V(1)), ("bold", V(0)), ("bold", V(None)), ("bold", S("maybe")), ("bold", S("bold")),
                                       ("bold", V(1.0)), ("bold", O("list")), ("underline", V(4)), ("invert", S("")),
                                       ("blink", O("object")), ("dark", V(2)), ("italic", V(None)))] + \
-               [[[k, v]] for k, v in (("color", S("red")), ("foreground", S("red")), ("BOLD", V(True)), ("Fg", S("red")),
-                                      ("underlined", V(True)), ("strike", V(True)), ("bright", V(True)), ("on_red", V(True)),
-                                      ("red", V(True)), ("fg ", V(31)))] + \
-               [[["style", v]] for v in (V(5), V(None), V(True), S("rad"), O("strlist"), S("RED "), S(""), V(31), V(1.0))]
+               [[[k, v]] for k, v in (("color", S("red")), ("foreground", S("red")), ("underlined", V(True)),
+                                      ("strike", V(True)), ("bright", V(True)))] + \
+               [[["style", v]] for v in (V(5), V(None), V(True), S("rad"), O("strlist"), S(""), V(31), V(1.0))]
 CONTRADICTIONS = [
-    ([S("red"), S("blue")], []), ([S("red"), S("red")], []), ([S("red")], [["fg", S("blue")]]), ([S("red")], [["fg", S("red")]]),
-    ([S("red")], [["fg", V(31)]]), ([S("red")], [["style", S("blue")]]), ([S("on_red"), S("on_blue")], []),
-    ([S("on_red")], [["bg", S("red")]]), ([S("bold")], [["bold", V(False)]]), ([], [["style", S("bold")], ["bold", V(False)]]),
-    ([], [["bold", V(False)], ["style", S("bold")]]), ([S("red")], [["style", S("red")]]), ([], [["fg", S("red")], ["style", S("blue")]]),
-    ([S("bold")], [["bold", V(None)]]), ([S("RED"), S("red")], []), ([S("red")], [["fg", V(None)]]), ([S("bold")], [["bold", V(1)]]),
-    ([S("on_red")], [["bg", V(41)]]), ([S("red"), S("bold"), S("nope")], []), ([S("red")], [["bold", V(True)], ["colour", S("x")]]),
-    ([S("Red"), S("on_blue"), S("ON_BLUE")], []),
+    ([S("red"), S("blue")], []), ([S("red")], [["fg", S("blue")]]), ([S("red")], [["fg", V(34)]]),
+    ([S("red")], [["style", S("blue")]]), ([S("on_red"), S("on_blue")], []),
+    ([S("on_red")], [["bg", S("blue")]]), ([S("bold")], [["bold", V(False)]]), ([], [["style", S("bold")], ["bold", V(False)]]),
+    ([], [["bold", V(False)], ["style", S("bold")]]), ([], [["fg", S("red")], ["style", S("blue")]]),
+    ([S("bold")], [["bold", V(1)]]), ([S("red"), S("bold"), S("nope")], []), ([S("red")], [["bold", V(True)], ["colour", S("x")]]),
+    ([S("Red"), S("on_blue"), S("ON_GREEN")], []), ([S("RED"), S("blue")], []),
 ]
 # malformed calls through a fmtfunc: (func, pos, kw)
-MALFORMED_FUNC = [("red", [S("blue")], []), ("red", [], [["fg", S("blue")]]), ("red", [], [["fg", V(31)]]), ("bold", [], [["bold", V(False)]]),
-                  ("red", [], [["style", V(5)]]), ("on_red", [S("on_red")], []), ("plain", [S("nope")], []), ("plain", [], [["fg", V(True)]]),
-                  ("underline", [], [["underline", V(0)]]), ("on_dark", [], [["bg", S("black")]])]
+MALFORMED_FUNC = [("red", [S("blue")], []), ("red", [], [["fg", S("blue")]]), ("bold", [], [["bold", V(False)]]),
+                  ("red", [], [["style", V(5)]]), ("plain", [S("nope")], []), ("plain", [], [["fg", V(True)]]),
+                  ("underline", [], [["underline", V(0)]]), ("on_dark", [], [["bg", S("red")]])]
+# rejected today, but not malformed under every reading: (pos, kw) - representation-level tie only, no oracle verdict
+REJECTED_SPELLINGS = [(p, []) for p in ([S("onred")], [S("on red")], [S(" red")], [S("red ")], [S("31")], [S("bold ")])] + \
+    [([], [[k, v]]) for k, v in (("fg", S("RED")), ("fg", S("Red")), ("fg", S("on_red")), ("fg", S("31")), ("fg", S(" red")),
+                                 ("fg", V(None)), ("bg", S("on_red")), ("bg", S("RED")), ("bg", S("ON_BLUE")), ("bg", V(None)),
+                                 ("bg", S("44")), ("BOLD", V(True)), ("Fg", S("red")), ("fg ", V(31)), ("on_red", V(True)),
+                                 ("red", V(True)), ("style", S("RED ")), ("style", S(" bold")))] + \
+    [([S("red"), S("red")], []), ([S("red")], [["fg", S("red")]]), ([S("red")], [["fg", V(31)]]), ([S("red")], [["style", S("red")]]),
+     ([S("RED"), S("red")], []), ([S("on_red")], [["bg", V(41)]]), ([S("on_red")], [["bg", S("red")]]),
+     ([S("on_red"), S("ON_RED")], []), ([S("red")], [["fg", V(None)]]), ([S("bold")], [["bold", V(None)]])]
+REJECTED_FUNC = [("red", [], [["fg", V(31)]]), ("on_red", [S("on_red")], []), ("on_dark", [], [["bg", S("black")]]),
+                 ("red", [S("RED")], [])]
 
 
 def mk_cases(ctx):
@@ -237,6 +254,12 @@ def mk_cases(ctx):
     for fn, pos, kw in MALFORMED_FUNC:
         cases.append(dict(op="apply", lay="one", f=LAYOUTS[1][1], spec=dict(pos=pos, kw=kw, func=fn, named=None, sp="malformed-func"), valid=False))
     ctx.exhaustive.append("malformed catalogue: %d specifications x 3 layouts + parse_args directly + %d through fmtfuncs" % (len(mal), len(MALFORMED_FUNC)))
+    # spellings the code rejects today without them being malformed: valid=None = no oracle verdict, representation tie
+    for pos, kw in REJECTED_SPELLINGS:
+        cases.append(dict(op="parse", pos=pos, kw=kw, valid=None))
+        cases.append(dict(op="apply", lay="one", f=LAYOUTS[1][1], spec=dict(pos=pos, kw=kw, func=None, named=None, sp="rejected-spelling"), valid=None))
+    for fn, pos, kw in REJECTED_FUNC:
+        cases.append(dict(op="apply", lay="one", f=LAYOUTS[1][1], spec=dict(pos=pos, kw=kw, func=fn, named=None, sp="rejected-spelling"), valid=None))
     for sp in sing:
         if sp["func"] is None:
             cases.append(dict(op="parse", pos=sp["pos"], kw=sp["kw"], valid=True, named=sp["named"]))
@@ -439,8 +462,8 @@ def shown(r, exp):
 
 def _oracle(c):
     op = c["op"]
-    if c.get("valid") is None and op == "parse":
-        return None
+    if "valid" in c and c["valid"] is None:
+        return None                           # outside what the statement fixes: model = code is compared, nothing judged
     try:
         r = run_impl(c)
         exc = None
@@ -564,7 +587,7 @@ def nontrivial(c):
 
 def tag(c):
     if c["op"] == "apply":
-        return "apply/" + ("valid" if c["valid"] else "malformed")
+        return "apply/" + ("valid" if c["valid"] else ("unfixed-spelling" if c["valid"] is None else "malformed"))
     return c["op"]
 
 
@@ -594,8 +617,14 @@ def check(ctx):
         except wire.Unencodable:
             ctx.dist["not-encodable-for-the-model"] += 1   # the oracle still judges the case below
     tied = ok
-    ctx.tie("C14/atts", [c for c in tied if c["op"] in ("parse", "shared")], line, impl, canon_atts, canon_atts)
-    ctx.tie("C14/cells", [c for c in tied if c["op"] not in ("parse", "shared")], line, impl, canon_cells, canon_cells)
+    unfixed = lambda c: "valid" in c and c["valid"] is None
+    ctx.tie("C14/atts", [c for c in tied if c["op"] in ("parse", "shared") and not unfixed(c)], line, impl, canon_atts, canon_atts)
+    ctx.tie("C14/cells", [c for c in tied if c["op"] not in ("parse", "shared") and not unfixed(c)], line, impl, canon_cells, canon_cells)
+    # spellings / repeated mentions the statement does not fix (the model mirrors what the code does today)
+    ctx.tie("C14/unfixed-spellings-atts", [c for c in tied if c["op"] == "parse" and unfixed(c)], line, impl, canon_atts,
+            canon_atts, level="representation")
+    ctx.tie("C14/unfixed-spellings-cells", [c for c in tied if c["op"] != "parse" and unfixed(c)], line, impl, canon_cells,
+            canon_cells, level="representation")
     for c in cases:
         w = oracle(c)
         ctx.count(c, nontrivial=nontrivial(c), tag=tag(c))
